@@ -10,6 +10,7 @@ pub mod c15;
 pub mod c06;
 pub mod c18;
 pub mod c19;
+pub mod c08;
 pub mod smoke;
 pub mod c01;
 pub mod c02;
@@ -40,6 +41,7 @@ pub fn plan(id: &str, tier: &str) -> Option<Plan> {
         "C06" => Some(Plan::new(if _t { 40 } else { 12 }, 1500)),
         "C18" => Some(Plan::new(if _t { 40 } else { 12 }, 1500)),
         "C19" => Some(Plan::new(if _t { 40 } else { 12 }, 1500)),
+        "C08" => Some(Plan::new(if _t { 48 } else { 12 }, 1500)),
         _ => None,
     }
 }
@@ -55,6 +57,7 @@ pub fn spec(id: &str) -> Option<Spec> {
         "C06" => Some(c06::spec()),
         "C18" => Some(c18::spec()),
         "C19" => Some(c19::spec()),
+        "C08" => Some(c08::spec()),
         _ => None,
     }
 }
@@ -70,6 +73,7 @@ pub fn worker(ctx: &WorkerCtx) -> WorkerReport {
         "C06" => c06::worker(ctx),
         "C18" => c18::worker(ctx),
         "C19" => c19::worker(ctx),
+        "C08" => c08::worker(ctx),
         other => {
             let mut r = WorkerReport::default();
             r.inconclusive(format!("no worker for {}", other));
